@@ -34,9 +34,7 @@ theorem C06_net_server_live_tokens (cfg : Cfg) (ops : List Op) :
     ∀ e ∈ (run cfg init ops).sv.table, phaseOf (svTrace (run cfg init ops).hist e.1) = .live :=
   fun e he => (run_svI cfg ops init init_svI).live e he (by simp)
 
--- OPEN: the same statement for the client side (`clTrace`, one run of the automaton per link).  The
--- check compares it on every run (the harness prints `!order` when a client's callbacks leave the
--- automaton) but the invariant proof (client state / connector `pend` / link freshness) is not done.
+-- the same for the client side: `C06_net_client_conn_order` in NetPropsCl.lean.
 
 /-! ## (iii) tokens: stale and foreign ones resolve to nothing -/
 
@@ -139,8 +137,7 @@ theorem C06_net_server_quiet (cfg : Cfg) (n : N) (m : Msg) (ht : n.sv.table = []
         · exact ⟨fun _ => rfl, ht⟩
       · exact ⟨fun _ => rfl, ht⟩
 
--- OPEN: the same for TcpClient (after stop() no client callback until the next start()) as a theorem
--- over histories (`clQuietOk`); compared on every run by the check.
+-- the same for TcpClient, as a theorem over histories: `C06_net_client_quiet` in NetPropsCl.lean.
 
 /-! ## (iv) connect attempts -/
 
